@@ -155,7 +155,7 @@ func (*prop) Cases(seed int64, tier string) []core.Case {
 	}
 	add(space{Name: "d1w3", Paths: allPaths, Idents: []string{"T", "List", "x_1"}, D: 1, W: 3}, 8)
 	add(space{Name: "d2w3", Paths: []string{"", "a.io/x"}, Idents: []string{"T"}, D: 2, W: 3}, 8)
-	nrand, randN := 8, 2000
+	nrand, randN := 16, 4000
 	if tier == "thorough" {
 		add(space{Name: "d3w2", Paths: []string{"", "a.io/x"}, Idents: []string{"T"}, D: 3, W: 2}, 32)
 		add(space{Name: "d2w2-wide", Paths: []string{"", "a.io/x", "gopkg.in/yaml.v3", target}, Idents: []string{"T"}, D: 2, W: 2}, 16)
